@@ -279,7 +279,7 @@ class PWLCalibration(keras.layers.Layer):
             self.kernel_regularizer.append(
                 WrinkleRegularizer(l1=l1, l2=l2, is_cyclic=self.is_cyclic))
           else:
-            raise ValueError("Unknown custom lattice regularizer: %s" % reg)
+            raise ValueError("Unknown custom lattice regularizer: %s" % (reg,))
         else:
           # This is needed for Keras deserialization logic to be aware of our
           # custom objects.
